@@ -785,6 +785,10 @@ func checkC10(p *core.Program, r *core.Report) {
 	r.Rule("R5", "'resume limit reached' ends the session as failed: the limit test and the wait counter it relies on (every kind of wait counts) are obligations here too (imported from C05/R3)")
 	importObligations(p, r, "C05", map[string]bool{"R3": true}, "R5", "the resume limit does not end the session as the property prescribes")
 
+	// ------------------------------------------------------------------ R7 a run whose node is gone
+	r.Rule("R7", "a run whose node vanished has no location: the node PathLocation returns is nil together with an error; in flows/engine and flows/runs it is dereferenced — directly, or by a callee it is handed to that invokes a method on that parameter without a nil test — only under a test of that error or of the node itself")
+	c10R7(p, r)
+
 	// ------------------------------------------------------------------ R6 a run whose flow is gone
 	r.Rule("R6", "a run restored without its flow has a nil Flow(): in flows/engine and flows/runs every method invoked on the result of Run.Flow() (or on the run's flow field) is controlled by a nil test of that same expression, or is listed as running only while the run executes (which starts from a node found through its flow)")
 	c10R6(p, r)
@@ -1072,4 +1076,152 @@ func pathIncoming(s *core.PathState, phi *ssa.Phi) ssa.Value {
 		}
 	}
 	return nil
+}
+
+// ---------------------------------------------------------------------------------------------- R7
+
+// c10NodeUseAllowed: uses of PathLocation's node that are safe for a reason outside the function. key as reported.
+var c10NodeUseAllowed = map[string]string{
+	"(*flows/runs.run).nodeContext/PathLocation-node":   "nodeContext is only bound (ContextFunc(env, r.nodeContext)) by RootContext under `n != nil`, n being PathLocation's node of the same run in the same evaluation; the path does not change in between",
+	"(*flows/runs.run).nodeContext/PathLocation-node#2": "see the first entry",
+}
+
+// c10DerefsParam: fn (or a callee it passes the parameter on to, depth-limited) invokes a method on parameter idx
+// without a dominating nil test of it.
+func c10DerefsParam(fn *ssa.Function, idx int, depth int) bool {
+	if fn == nil || fn.Blocks == nil || idx >= len(fn.Params) || depth > 2 {
+		return false
+	}
+	prm := fn.Params[idx]
+	found := false
+	core.EachInstr(fn, true, func(f *ssa.Function, in ssa.Instruction) {
+		ci, ok := in.(ssa.CallInstruction)
+		if !ok || found {
+			return
+		}
+		com := ci.Common()
+		val := func(v ssa.Value) bool {
+			v = core.StripConv(v)
+			if v == ssa.Value(prm) {
+				return true
+			}
+			// captured by a function literal
+			if fv, ok := v.(*ssa.FreeVar); ok && fv.Name() == prm.Name() {
+				return true
+			}
+			return false
+		}
+		if com.IsInvoke() && val(com.Value) {
+			if xNilGuard(in.Block(), com.Value) == "" {
+				found = true
+			}
+			return
+		}
+		if g := com.StaticCallee(); g != nil && g.Blocks != nil {
+			for k, a := range com.Args {
+				if val(a) && xNilGuard(in.Block(), a) == "" && c10DerefsParam(g, k, depth+1) {
+					found = true
+				}
+			}
+		}
+	})
+	return found
+}
+
+func c10R7(p *core.Program, r *core.Report) {
+	n := 0
+	per := map[string]int{}
+	for _, cs := range p.CallsToName("flows.Run.PathLocation", "flows/runs.run.PathLocation") {
+		rel := core.RelPkg(core.FuncPkgPath(cs.Caller))
+		if p.IsTestFile(cs.Pos()) || (rel != "flows/engine" && rel != "flows/runs") {
+			continue
+		}
+		call, ok := cs.Instr.(*ssa.Call)
+		if !ok || call.Referrers() == nil {
+			continue
+		}
+		var node, errV *ssa.Extract
+		for _, ref := range *call.Referrers() {
+			if ex, ok := ref.(*ssa.Extract); ok {
+				switch ex.Index {
+				case 1:
+					node = ex
+				case 2:
+					errV = ex
+				}
+			}
+		}
+		if node == nil || node.Referrers() == nil {
+			continue
+		}
+		guardedAt := func(b *ssa.BasicBlock) bool {
+			if xNilGuard(b, node) != "" {
+				return true
+			}
+			if errV == nil {
+				return false
+			}
+			for _, ce := range core.ControllingConds(b) {
+				bo, ok := ce.Cond.(*ssa.BinOp)
+				if !ok || !(core.IsNilConst(bo.X) || core.IsNilConst(bo.Y)) {
+					continue
+				}
+				other := bo.X
+				if core.IsNilConst(bo.X) {
+					other = bo.Y
+				}
+				if other == ssa.Value(errV) && ((bo.Op == token.EQL && ce.Taken) || (bo.Op == token.NEQ && !ce.Taken)) {
+					return true
+				}
+			}
+			return false
+		}
+		// uses of the node, through phis
+		seen := map[ssa.Value]bool{}
+		var uses func(v ssa.Value)
+		uses = func(v ssa.Value) {
+			if seen[v] || v.Referrers() == nil {
+				return
+			}
+			seen[v] = true
+			for _, ref := range *v.Referrers() {
+				switch x := ref.(type) {
+				case *ssa.Phi:
+					uses(x)
+				case *ssa.MakeClosure:
+					// captured: judged where the literal uses it (not followed)
+				case ssa.CallInstruction:
+					com := x.Common()
+					bad := ""
+					if com.IsInvoke() && com.Value == v {
+						bad = com.Method.Name() + "() is invoked on it"
+					} else if g := com.StaticCallee(); g != nil {
+						for k, a := range com.Args {
+							if a == v && c10DerefsParam(g, k, 0) {
+								bad = "it is handed to " + g.Name() + ", which dereferences that parameter"
+							}
+						}
+					}
+					if bad == "" {
+						continue
+					}
+					n++
+					k := core.FuncName(rootFn(cs.Caller)) + "/PathLocation-node"
+					per[k]++
+					key := k
+					if per[k] > 1 {
+						key = fmt.Sprintf("%s#%d", k, per[k])
+					}
+					if reason, ok := c10NodeUseAllowed[key]; ok && !guardedAt(x.Block()) {
+						r.OK("R7", key, p.Pos(x.Pos()), "listed: "+reason)
+						continue
+					}
+					r.Check(guardedAt(x.Block()), "R7", key, p.Pos(x.Pos()), "under a test of PathLocation's error or of the node",
+						"the node returned by PathLocation is used ("+bad+") without a test of the error returned with it: for a run located at a node that no longer exists this is a nil interface call — the resume panics instead of failing the run")
+				}
+			}
+		}
+		uses(node)
+	}
+	r.Require("pathlocation_node_uses", n, 2)
 }
